@@ -92,7 +92,7 @@ theorem Sim.unfold_eq {d d' : Design} {B : Nat → Nat → Prop} (s : Sim d d' B
     (p : List Nat) (iid : Nat) : unfoldAt d p iid = unfoldAt d' p iid := by
   simp only [unfoldAt, instAt, defAt]
   cases hx : defAtFrom d d.top p with
-  | none => rw [s.walk_none p _ _ htop hx]
+  | none => rw [s.walk_none p _ _ htop hx]; rfl
   | some x =>
     obtain ⟨y, hy, hB⟩ := s.walk p _ _ htop x hx
     rw [hy]
